@@ -212,6 +212,21 @@ def apply(spec, inv):
         lf.setdefault('hdr', {})['id'] = _txt(66 + sel % 5)
 
 
+def rows_really_unequal(spec):
+    ops = spec['lfs'][0]['ops']
+    for op in ops:
+        if op is None or op['t'] != 'frame':
+            continue
+        rows = set()
+        for r in op['attrs']['channels']['v']:
+            d = ops[r['$ref']].get('data')
+            if d is not None:
+                rows.add(d['shape'][0])
+        if len(rows) > 1:
+            return True
+    return False
+
+
 class _Restructure(Exception):
     pass
 
@@ -295,6 +310,12 @@ class C12(Property):
         labels = ['inv:' + k.split(':')[0] for k in kinds]
         if not kinds:
             return Result([], ['no-invalidation-applied'], False, 'skipped')
+        if any(k.startswith('rows-unequal') for k in kinds) and not rows_really_unequal(spec):
+            # a second row-count invalidation on the same frame can restore equality: then nothing is demanded for it
+            kinds = [k for k in kinds if not k.startswith('rows-unequal')]
+            labels.append('rows-unequal-undone')
+            if not kinds:
+                return Result([], labels, False, 'skipped')
         must = [k for k in kinds if CATALOGUE[k.split(':')[0]] == MUST_RAISE]
         path = ctx.path()
         r = self.build_and_write(spec, path, ctx)
